@@ -66,6 +66,10 @@ class C01(HistoryProperty):
                     if rng.random() < 0.4:
                         o, m = dg.mutate(o)
                         ops.insert(k, {"op": "evaluate", "node": node["id"], "o": o, "mut": m})
+        if bases and ops and rng.random() < 0.15:
+            # the cache of a WARM dataset is replaced in the middle of the history (Dataset.set_cache)
+            at = rng.randrange(1, len(ops) + 1)
+            ops.insert(at, {"op": "set_cache", "ds": rng.choice(bases)["id"], "cache": rng.choice(["memory", "nocache", "recording"]), "factory": rng.random() < 0.3})
         return {"cfg": cfg, "spec": spec, "ops": ops}
 
     def run_case(self, case):
@@ -78,6 +82,10 @@ class C01(HistoryProperty):
                     if op["node_def"]["base"] in w.prog.obj:
                         w.do(op)
                         res.bump("late_derivations")
+                    continue
+                if op["op"] == "set_cache":
+                    w.do(op)
+                    res.bump("late_set_cache")
                     continue
                 if op["node"] not in w.prog.obj:
                     continue  # (a shrunk history may have lost the derivation this op refers to)
